@@ -102,6 +102,11 @@ def classify(res, text):
             bd += mt.get('function-breakdown', [])
     except Exception:
         pass
+    # `assert(closed term) by(compute)` that evaluates to false is a refuted obligation (Verus reports it before the SMT phase, as a VIR error):
+    # the function holding it fails - with the computed counter-fact in the message - rather than the unit being undecided
+    refuted = [e for e in errs if re.search(r'simplifies to .* which evaluates to false', e['msg'])]
+    if refuted:
+        return dict(status='fail', verified=vr.get('verified', 0), errors=refuted, breakdown=bd, reason='by(compute) refuted a closed-term obligation')
     if vr.get('encountered-vir-error') or (vr.get('encountered-error') and vr.get('errors', 0) == 0 and not vr.get('success')):
         return dict(status='undecided', reason='verus rejected the unit text (unsupported construct or type error): ' +
                     '; '.join(e['msg'] for e in errs[:5]) + res['stderr'][-800:], verified=vr.get('verified', 0), errors=errs, breakdown=bd)
